@@ -104,7 +104,7 @@ var seq int64
 
 // Run is one request through one entry point under one scenario.
 type Run struct {
-	Key, Res string
+	Key, Res, ID string
 	Sc       Scenario
 	// errBack: this framework hands the handler's error back to the middleware
 	ErrBack bool
@@ -119,9 +119,15 @@ type Run struct {
 }
 
 // New prepares a run: a fresh resource name; a flow rule with threshold 0 when the request is to be blocked.
-func New(key string, sc Scenario, errBack bool) *Run {
+// format (optional) maps the run's unique id to the resource name the adapter will derive by default (e.g.
+// "GET:/"+id for the HTTP adapters driven without a resource extractor).
+func New(key string, sc Scenario, errBack bool, format ...func(id string) string) *Run {
 	n := atomic.AddInt64(&seq, 1)
-	r := &Run{Key: key, Sc: sc, ErrBack: errBack, Res: fmt.Sprintf("c19-%d-%d", os.Getpid(), n)}
+	id := fmt.Sprintf("c19-%d-%d", os.Getpid(), n)
+	r := &Run{Key: key, Sc: sc, ErrBack: errBack, ID: id, Res: id}
+	if len(format) > 0 {
+		r.Res = format[0](id)
+	}
 	var rules []*flow.Rule
 	if sc.Blocked {
 		rules = append(rules, &flow.Rule{Resource: r.Res, Threshold: 0, TokenCalculateStrategy: flow.Direct,
